@@ -195,7 +195,9 @@ def body(chk):
                                                  'masa_init<Scalar>("a","no such solution");'], 'init of unknown solution on an existing handle: ' + why,
                                                 after=['std::string s; masa_get_name<Scalar>(&s); printf("\\nR after %s\\n", s.c_str());',
                                                        'int ok2=0; try { masa_select_mms<Scalar>("a"); masa_get_name<Scalar>(&s); ok2 = (s=="euler_2d") && masa_get_param<Scalar>("L")==(Scalar)3.5; } catch(int e) { ok2=0; }',
-                                                       'printf("R a_intact %d\\n", ok2);'], expect_after=['R after euler_1d', 'R a_intact 1']))
+                                                       'printf("R a_intact %d\\n", ok2);',
+                                                       'int g_=0; try { masa_init<Scalar>("ghost","no such solution"); } catch(int e) {} try { masa_select_mms<Scalar>("ghost"); g_=1; } catch(int e) { g_=0; }',
+                                                       'printf("R ghost_not_registered %d\\n", g_==0);'], expect_after=['R after euler_1d', 'R a_intact 1', 'R ghost_not_registered 1']))
     chk.solve_all()
 
 
